@@ -291,18 +291,25 @@ def mapSlot (g : Geo) (pos : Int) (st : St) (s : Int) (h : Header) : M St := do
 
 /-! ### finalizeOrThrow -/
 
-/-- result of the walk: `none` = a `Must` failed (the exception is caught by finalizeOrFree) -/
+/-- one of the `Must`s at the top of the loop body of finalizeOrThrow fails for slot `s`:
+    `loadingSlot(slotId)` (range / "cannot look ahead"), `Must(!slot.finalized())`, `Must(slot.mapped())`,
+    `Must(!slot.freed())` and, in the `finalizeChecksOwner` variant, `Must(slot.owner == fileNo)` -/
+def walkBlocked (cfg : Cfg) (g : Geo) (pos : Int) (f : Nat) (st : St) (s : Int) : Bool :=
+  !slotOk g pos s || (st.ls s).finalized || !(st.ls s).mapped || (st.ls s).freed ||
+  (cfg.v.finalizeChecksOwner && (st.ls s).owner != (f : Int))
+
+/-- `slot.finalized(true)` -/
+def setFinalized (st : St) (s : Int) : St :=
+  { st with ls := upd st.ls s { st.ls s with finalized := true } }
+
+/-- the `while` loop of finalizeOrThrow; `none` = a `Must` failed (the exception is caught by finalizeOrFree) -/
 def walk (cfg : Cfg) (g : Geo) (pos : Int) (f : Nat) (target : Nat) : Nat → Int → Nat → St → M (St × Option (Int × Nat))
   | 0, _, _, _ => throw .outOfFuel
   | fuel + 1, s, mappedSize, st =>
     if 0 ≤ s ∧ mappedSize < target then
-      if !slotOk g pos s then pure (st, none)                       -- loadingSlot() throws
-      else if (st.ls s).finalized then pure (st, none)               -- Must(!slot.finalized())
-      else if !(st.ls s).mapped then pure (st, none)                 -- Must(slot.mapped())
-      else if (st.ls s).freed then pure (st, none)                   -- Must(!slot.freed())
-      else if cfg.v.finalizeChecksOwner && (st.ls s).owner != (f : Int) then pure (st, none)
+      if walkBlocked cfg g pos f st s then pure (st, none)
       else
-        let st1 : St := { st with ls := upd st.ls s { st.ls s with finalized := true } }
+        let st1 := setFinalized st s
         if (st1.sl s).size = 0 then pure (st1, none)                 -- Must(mapSlice.size > 0)
         else walk cfg g pos f target fuel (st1.sl s).next (mappedSize + (st1.sl s).size) st1
     else pure (st, some (s, mappedSize))
